@@ -47,7 +47,7 @@ type slicer struct {
 }
 
 type tokenGuard struct {
-	block *ssa.BasicBlock // block ending in `if tok == K`
+	block *ssa.BasicBlock // block ending in `if tok == K` or `if name == "K"`
 	name  string
 }
 
@@ -73,6 +73,13 @@ func newSlicer(p *Prog, fn *ssa.Function) *slicer {
 		}
 		bo, ok := ifi.Cond.(*ssa.BinOp)
 		if !ok || bo.Op != token.EQL {
+			continue
+		}
+		if str, ok := constString(bo.Y); ok {
+			// string switch on an option / method name (addBlack, modRoute, modDest, TOML blacklist)
+			if _, isConst := bo.X.(*ssa.Const); !isConst {
+				s.guards = append(s.guards, tokenGuard{b, "str:" + str})
+			}
 			continue
 		}
 		k, ok := constInt(bo.Y)
@@ -106,23 +113,36 @@ var parseFuncs = map[string]bool{"strconv.Atoi": true, "strconv.ParseBool": true
 func (s *slicer) sources(v ssa.Value) []srcInfo {
 	var out []srcInfo
 	type key struct {
-		v ssa.Value
-		m int64
+		v   ssa.Value
+		m   int64
+		ctx *ssa.BasicBlock
 	}
 	seen := map[key]bool{}
-	var rec func(v ssa.Value, mult int64, depth int)
+	var recCtx func(v ssa.Value, mult int64, depth int, ctx *ssa.BasicBlock)
 	add := func(si srcInfo) { out = append(out, si) }
-	rec = func(v ssa.Value, mult int64, depth int) {
-		if v == nil || depth > 60 || seen[key{v, mult}] {
+	var ctxStack []*ssa.BasicBlock
+	rec := func(v ssa.Value, mult int64, depth int) {
+		var ctx *ssa.BasicBlock
+		if len(ctxStack) > 0 {
+			ctx = ctxStack[len(ctxStack)-1]
+		}
+		recCtx(v, mult, depth, ctx)
+	}
+	recCtx = func(v ssa.Value, mult int64, depth int, ctx *ssa.BasicBlock) {
+		if v == nil || depth > 60 || seen[key{v, mult, ctx}] {
 			return
 		}
-		seen[key{v, mult}] = true
+		seen[key{v, mult, ctx}] = true
 		instr, _ := v.(ssa.Instruction)
 		tokenSrc := func() bool {
 			if instr == nil || instr.Block() == nil {
 				return false
 			}
 			g := s.guardOf(instr.Block())
+			if len(g) == 0 && ctx != nil {
+				// the value is assigned on a control-flow edge that comes from a guarded block
+				g = s.guardOf(ctx)
+			}
 			if len(g) == 0 {
 				return false
 			}
@@ -135,8 +155,10 @@ func (s *slicer) sources(v ssa.Value) []srcInfo {
 		case *ssa.Parameter:
 			add(srcInfo{Kind: "param", Name: x.Name(), Mult: mult})
 		case *ssa.Phi:
-			for _, e := range x.Edges {
+			for i, e := range x.Edges {
+				ctxStack = append(ctxStack, x.Block().Preds[i])
 				rec(e, mult, depth+1)
+				ctxStack = ctxStack[:len(ctxStack)-1]
 			}
 		case *ssa.Convert:
 			// string(t.Value) is a token value; numeric conversions pass through
@@ -179,6 +201,11 @@ func (s *slicer) sources(v ssa.Value) []srcInfo {
 				}
 				add(srcInfo{Kind: "call", Name: fmt.Sprintf("%s#%d", short(n), x.Index), Mult: mult, At: call})
 				return
+			}
+			if _, isNext := x.Tuple.(*ssa.Next); isNext {
+				if tokenSrc() {
+					return
+				}
 			}
 			add(srcInfo{Kind: "other", Name: "extract", Mult: mult})
 		case *ssa.Call:
@@ -238,6 +265,9 @@ func (s *slicer) sources(v ssa.Value) []srcInfo {
 					add(srcInfo{Kind: "field", Name: f.Name(), Mult: mult, At: x})
 					return
 				case *ssa.IndexAddr:
+					if tokenSrc() {
+						return
+					}
 					add(srcInfo{Kind: "other", Name: "element", Mult: mult})
 					return
 				}
